@@ -72,7 +72,9 @@ def gen_case(rng):
                        {"merges": "bad", "concept_nodes_count": "x", "last_update": "t"}, {"edges_count": 99, "last_update": None}])
     return {"bounds": [lo, hi], "weights": weights, "edges": edges, "edges_as": edges_as, "nodes": nodes, "nodes_as": nodes_as, "meta": meta,
             "agent": rng.choice(["A", "Ambrose", "agent-7", "Ünï", "a.b"]), "turn": rng.choice([0, 1, 7, "3", "x"]), "version": rng.choice(["1", "7", "v-x", "0"]),
-            "has_store": rng.random() < 0.85, "graph_key": rng.choice(["graph", "graph", "gel"]), "ndeltas": rng.randint(0, 3)}
+            "has_store": rng.random() < 0.85, "graph_key": rng.choice(["graph", "graph", "gel"]), "ndeltas": rng.randint(0, 3),
+            # an older snapshot of another agent in the same directory: [file-name stem, seconds older]
+            "older_sibling": rng.choice([None, ["zz-older", 0.5], ["0-older", 0.5], ["zz-older", 0.004], ["zz-older", 3.0], ["~older", 0.25]])}
 
 
 def ekey(a, b):
@@ -170,6 +172,14 @@ def check_case(case, sess: Session):
         deltas = [ProposedDelta("node", f"n:{i}", "weight", 0.1 * i, op_idx=i, idx=i) for i in range(case["ndeltas"])]
         gel0 = copy.deepcopy(gel)
         sess.evaluations += 1
+        older = None
+        if case.get("older_sibling"):
+            try:
+                older = S.write_snapshot(NS(turn_id=0, agent_id=case["older_sibling"][0], cfg=cfg, config=cfg), {"graph": {"nodes": {}, "edges": {}, "meta": {}}, "version_etag": "older-sibling", "store": WStore()},
+                                         "older-sibling", applied=0, deltas=[])
+            except Exception as ex:
+                sess.violation("write-raises:" + type(ex).__name__, case, repr(ex)[:200])
+                return
         try:
             path = S.write_snapshot(ctx, state, case["version"], applied=case["ndeltas"], deltas=deltas)
         except Exception as ex:
@@ -198,6 +208,18 @@ def check_case(case, sess: Session):
             sess.violation("snapshot-file-name", case, os.path.basename(path))
         # (3) decoys, all newer than the body
         now = time.time()
+        if older:
+            # pin the two real snapshots' mtimes: the sibling was written `gap` seconds before the body (sub-second gaps
+            # land both in one whole second: x.75 and x.75 - gap)
+            tb = float(int(now)) - 10 + 0.75  # in the past: later rewrites of the body stay the newest file
+            os.utime(path, (tb, tb))
+            os.utime(older, (tb - case["older_sibling"][1], tb - case["older_sibling"][1]))
+            if os.path.getmtime(older) < os.path.getmtime(path):
+                sess.count("older_sibling_snapshots(mtime strictly older)")
+                if int(os.path.getmtime(older)) == int(os.path.getmtime(path)):
+                    sess.count("older_sibling_within_the_same_second")
+            else:
+                sess.inconclusive_because("filesystem did not keep the sub-second mtime gap")
         decoys = [os.path.basename(path) + ".k3_9xq1z", os.path.basename(path) + ".zst", "state_zzz.json.meta", "snap_000999.json.meta", "snap_000999.json.tmp8",
                   "state_B.jsonl", "notes.json.bak", "state_B.json.abcd1234"]
         for i, n in enumerate(decoys):
@@ -350,6 +372,7 @@ def main(tier: str, seed: int):
     sess.require("rewrites_compared", 500)
     sess.require("cases_with_sanitised_edges", 100)
     sess.require("discovery_calls", 300)
+    sess.require("older_sibling_within_the_same_second", 60)
     sess.require("real_temp_leftovers_planted", 300)
     sess.require("killed_write_leftovers", 300)
     sess.finish()
